@@ -74,3 +74,41 @@ package ring
 //@   loop 0 invariant cached != nil && cached.ringDesc != nil && same(r.ringDesc, old(r).ringDesc) && !isnil(cached.ringDesc.Ingesters) && r != nil
 //@   loop 0 invariant forall n string :: in(n, cached.ringDesc.Ingesters) <==> in(n, $coll)
 //@   loop 0 invariant forall n string :: $visited[n] ==> refreshedFrom(cached.ringDesc.Ingesters[n], get(r.ringDesc.Ingesters, n))
+
+//@ # ---- C13: whichever way a new descriptor is installed (full re-index or the shortcut for state-only changes), what the
+//@ # client holds afterwards is the received descriptor, normalised the same way: no instance of an excluded zone, and
+//@ # every entry carrying its map key as Id (older lifecyclers do not write it; lookups hand the entry out as it is)
+//@ pred idsSet(m map[string]InstanceDesc) = forall id string :: in(id, m) ==> m[id].Id == id
+//@ pred strIn(s []string, v string) = exists i int :: 0 <= i && i < len(s) && s[i] == v
+//@ # token well-formedness depends only on which entries exist and on their token lists
+//@ lemma tokensOKCongr(a map[string]InstanceDesc, b map[string]InstanceDesc)
+//@   property C13
+//@   ensures (forall id string :: (in(id, b) ==> in(id, a) && b[id].Tokens == a[id].Tokens)) && tokMapOK(a) ==> tokMapOK(b)
+//@ pred tokMapOK(m map[string]InstanceDesc) = (forall id string :: in(id, m) ==> sortedStrict(m[id].Tokens)) &&
+//@      (forall a, b string, i, j int :: in(a, m) && in(b, m) && a != b && 0 <= i && i < len(m[a].Tokens) && 0 <= j && j < len(m[b].Tokens) ==> m[a].Tokens[i] != m[b].Tokens[j])
+//@
+//@ func Desc.setInstanceIDs
+//@   property C13
+//@   requires !isnil(d.Ingesters)
+//@   ensures  ids: idsSet(d.Ingesters) && !isnil(d.Ingesters)
+//@   ensures  rest: forall id string :: (in(id, d.Ingesters) <==> in(id, old(d).Ingesters)) && (in(id, d.Ingesters) ==> d.Ingesters[id].Tokens == old(d).Ingesters[id].Tokens && d.Ingesters[id].Zone == old(d).Ingesters[id].Zone &&
+//@              d.Ingesters[id].State == old(d).Ingesters[id].State && d.Ingesters[id].Timestamp == old(d).Ingesters[id].Timestamp && d.Ingesters[id].Addr == old(d).Ingesters[id].Addr &&
+//@              d.Ingesters[id].RegisteredTimestamp == old(d).Ingesters[id].RegisteredTimestamp && d.Ingesters[id].ReadOnly == old(d).Ingesters[id].ReadOnly && d.Ingesters[id].ReadOnlyUpdatedTimestamp == old(d).Ingesters[id].ReadOnlyUpdatedTimestamp)
+//@   loop 0 invariant !isnil(d.Ingesters)
+//@   loop 0 invariant forall id string :: in(id, d.Ingesters) <==> in(id, $coll)
+//@   loop 0 invariant forall id string :: in(id, $coll) && $visited[id] ==> d.Ingesters[id].Id == id
+//@   loop 0 invariant forall id string :: in(id, $coll) ==> d.Ingesters[id].Tokens == $coll[id].Tokens && d.Ingesters[id].Zone == $coll[id].Zone && d.Ingesters[id].State == $coll[id].State && d.Ingesters[id].Timestamp == $coll[id].Timestamp &&
+//@              d.Ingesters[id].Addr == $coll[id].Addr && d.Ingesters[id].RegisteredTimestamp == $coll[id].RegisteredTimestamp && d.Ingesters[id].ReadOnly == $coll[id].ReadOnly && d.Ingesters[id].ReadOnlyUpdatedTimestamp == $coll[id].ReadOnlyUpdatedTimestamp
+//@
+//@ func Ring.updateRingState
+//@   property C13
+//@   requires ringDesc != nil && !isnil(ringDesc.Ingesters) && descTokensOK(ringDesc) && !isnil(r.trackedRingZones)
+//@   ghost var pre map[string]InstanceDesc = ringDesc.Ingesters
+//@   at before@ring.Desc.setInstanceIDs: pre := ringDesc.Ingesters
+//@   at after@ring.Desc.setInstanceIDs: use tokensOKCongr(pre, ringDesc.Ingesters)
+//@   ensures  installed_ids: r.ringDesc != nil && idsSet(r.ringDesc.Ingesters)
+//@   ensures  installed_zones: forall id string :: in(id, r.ringDesc.Ingesters) ==> in(id, old(ringDesc).Ingesters) && !strIn(r.cfg.ExcludedZones, r.ringDesc.Ingesters[id].Zone)
+//@   ensures  installed_all: forall id string :: in(id, old(ringDesc).Ingesters) && !strIn(r.cfg.ExcludedZones, old(ringDesc).Ingesters[id].Zone) ==> in(id, r.ringDesc.Ingesters)
+//@   loop 0 invariant !isnil(ringDesc.Ingesters) && descTokensOK(ringDesc)
+//@   loop 0 invariant forall id string :: in(id, ringDesc.Ingesters) ==> in(id, $coll) && ringDesc.Ingesters[id] == $coll[id]
+//@   loop 0 invariant forall id string :: in(id, $coll) ==> (in(id, ringDesc.Ingesters) <==> !($visited[id] && strIn(r.cfg.ExcludedZones, $coll[id].Zone)))
